@@ -33,7 +33,7 @@ Qed.
 
 Lemma sext_domdata_dom ct c fuel st nm len : SExt dom_data st (fst (dom_call fuel ct c st (Some nm) len None None)).
 Proof.
-  apply (sext_dom_call dom_data ct c (fun _ => True) (fun _ => True)); auto using dom_data_kill; intros; exact I.
+  apply (sext_dom_call dom_data ct c (fun _ => True) (fun _ => True)); auto using dom_data_kill; unfold HeapLen; intros; exact I.
 Qed.
 
 Lemma newdom_domain_by_name ct g h0 nm : Keeps (NewDom h0) (domain_by_name ct g nm).
